@@ -1,7 +1,7 @@
 (* C04 - facts about the reference terminal (Model/TermRef.v): list plumbing, repair of split wide
    characters, what printing / inserting / erasing does to the cursor row, SGR. *)
 From Coq Require Import ZArith List Bool Lia ZifyBool.
-From Urwid Require Import PyBase TermRef.
+From Urwid Require Import PyBase TermRef DrawScreen PaintSpec.
 Import ListNotations.
 Open Scope Z_scope.
 
@@ -147,6 +147,8 @@ Proof.
   symmetry. apply (nthz_split g y x Hx).
 Qed.
 
+Ltac splits_ := repeat match goal with |- _ /\ _ => split end.
+
 (* ---------- well-formed cell lists and the repair of split halves ---------- *)
 Inductive WFc : list cell -> Prop :=
   | WFc_nil : WFc []
@@ -234,10 +236,10 @@ Proof.
   pose proof (zlen_nonneg P) as HP0. pose proof (zlen_nonneg R) as HR0.
   assert (Hlt : zlen P <? t_cols t = true) by lia. rewrite Hlt in Hpos. destruct Hpos as [Hx Hpend].
   unfold put.
-  assert (E1 : (w =? 0) || (t_cols t <? w) = false) by lia. rewrite E1.
+  assert (E1 : w =? 0 = false) by lia. rewrite E1. assert (E1' : t_cols t <? w = false) by lia. rewrite E1'.
   rewrite Hpend. assert (E2 : t_cols t <? t_x t + w = false) by lia. rewrite E2. cbn [orb].
   rewrite Hirm, Hy, Hrow, Hx.
-  set (cells := mkCell cp w (cur_cs t) (t_attr t) :: (if w =? 2 then [mkCell (-1) 0 (cur_cs t) (t_attr t)] else [])).
+  set (cells := mkCell cp w (cur_cs t) (t_attr t) [] :: (if w =? 2 then [mkCell (-1) 0 (cur_cs t) (t_attr t) []] else [])).
   assert (Hcells : cells = char_cells cp w (cur_cs t) (t_attr t)).
   { unfold cells, char_cells. destruct Hw as [ -> | -> ]; reflexivity. }
   assert (Hzc : zlen cells = w). { rewrite Hcells. apply zlen_char_cells. lia. }
@@ -270,8 +272,6 @@ Proof.
     + unfold SameModes. cbn. auto.
 Qed.
 
-Lemma put_zero t cp : put t cp 0 = t.
-Proof. reflexivity. Qed.
 
 (* printing in insert mode: the rest of the line moves right, what is pushed over the edge is lost *)
 Lemma put_ins_ok t0 t y P Zc R2 cp w :
@@ -285,10 +285,10 @@ Proof.
   rewrite zlen_app in Hlen.
   assert (Hlt : zlen P <? t_cols t = true) by lia. rewrite Hlt in Hpos. destruct Hpos as [Hx Hpend].
   unfold put.
-  assert (E1 : (w =? 0) || (t_cols t <? w) = false) by lia. rewrite E1.
+  assert (E1 : w =? 0 = false) by lia. rewrite E1. assert (E1' : t_cols t <? w = false) by lia. rewrite E1'.
   rewrite Hpend. assert (E2 : t_cols t <? t_x t + w = false) by lia. rewrite E2. cbn [orb].
   rewrite Hirm, Hy, Hrow, Hx.
-  set (cells := mkCell cp w (cur_cs t) (t_attr t) :: (if w =? 2 then [mkCell (-1) 0 (cur_cs t) (t_attr t)] else [])).
+  set (cells := mkCell cp w (cur_cs t) (t_attr t) [] :: (if w =? 2 then [mkCell (-1) 0 (cur_cs t) (t_attr t) []] else [])).
   assert (Hcells : cells = char_cells cp w (cur_cs t) (t_attr t)).
   { unfold cells, char_cells. destruct Hw as [ -> | -> ]; reflexivity. }
   assert (Hzc : zlen cells = w). { rewrite Hcells. apply zlen_char_cells. lia. }
@@ -375,4 +375,108 @@ Proof.
   destruct n.
   - f_equal.
   - unfold set_pos; cbn. f_equal. lia.
+Qed.
+
+(* ---------- zero-width (combining) characters ---------- *)
+Lemma WFc_last_cases P : WFc P ->
+  P = [] \/ (exists Q c, P = Q ++ [c] /\ c_w c <> 0 /\ c_w c <> 2 /\ WFc Q)
+  \/ (exists Q c d, P = Q ++ [c; d] /\ c_w c = 2 /\ c_w d = 0 /\ WFc Q).
+Proof.
+  induction 1 as [|c l H0 H2 Hl IH|c c2 l Hc Hc2 Hl IH].
+  - left. reflexivity.
+  - right. destruct IH as [->|[(Q & c' & -> & A & B & C)|(Q & c' & d & -> & A & B & C)]].
+    + left. exists [], c. splits_; auto; try constructor.
+    + left. exists (c :: Q), c'. splits_; auto; try (apply WFc_narrow; auto).
+    + right. exists (c :: Q), c', d. splits_; auto; try (apply WFc_narrow; auto).
+  - right. destruct IH as [->|[(Q & c' & -> & A & B & C)|(Q & c' & d & -> & A & B & C)]].
+    + right. exists [], c, c2. splits_; auto; try constructor.
+    + left. exists (c :: c2 :: Q), c'. splits_; auto; try (apply WFc_wide; auto).
+    + right. exists (c :: c2 :: Q), c', d. splits_; auto; try (apply WFc_wide; auto).
+Qed.
+
+Lemma combine_last_nil cp : combine_last [] cp = [].
+Proof. reflexivity. Qed.
+
+Lemma combine_last_narrow Q c cp : c_w c <> 0 -> combine_last (Q ++ [c]) cp = Q ++ [add_comb c cp].
+Proof.
+  intros H. unfold combine_last. rewrite rev_app_distr. cbn [rev app].
+  destruct (c_w c =? 0) eqn:E; [lia|]. now rewrite rev_involutive.
+Qed.
+
+Lemma combine_last_wide Q c d cp : c_w d = 0 -> combine_last (Q ++ [c; d]) cp = Q ++ [add_comb c cp; d].
+Proof.
+  intros H. unfold combine_last. rewrite rev_app_distr. cbn [rev app].
+  destruct (c_w d =? 0) eqn:E; [|lia]. now rewrite rev_involutive.
+Qed.
+
+Lemma zlen_combine_last P cp : WFc P -> zlen (combine_last P cp) = zlen P /\ WFc (combine_last P cp).
+Proof.
+  intros H. destruct (WFc_last_cases P H) as [->|[(Q & c & -> & A & B & C)|(Q & c & d & -> & A & B & C)]].
+  - split; [reflexivity|constructor].
+  - rewrite combine_last_narrow by assumption. split; [rewrite !zlen_app; reflexivity|].
+    apply WFc_app; [assumption|]. apply WFc_narrow; cbn; auto. constructor.
+  - rewrite combine_last_wide by assumption. split; [rewrite !zlen_app; reflexivity|].
+    apply WFc_app; [assumption|]. apply WFc_wide; cbn; auto. constructor.
+Qed.
+
+Lemma put_zero_ok t0 t y P R cp :
+  RowSt t y P R -> SameFrame t0 t y -> 0 <= y < zlen (t_grid t) ->
+  RowSt (put t cp 0) y (combine_last P cp) R /\ SameFrame t0 (put t cp 0) y /\ SameModes t (put t cp 0).
+Proof.
+  intros (Hy & Hrow & Hlen & Hwf & Hpos) HF Hyr.
+  pose proof (zlen_nonneg P) as HP0. pose proof (zlen_nonneg R) as HR0.
+  change (put t cp 0) with (put_zero t cp). unfold put_zero.
+  assert (Hidx : (if t_pending t then t_x t else t_x t - 1) = zlen P - 1).
+  { destruct (zlen P <? t_cols t) eqn:E; destruct Hpos as [-> ->]; lia. }
+  rewrite Hidx, Hy, Hrow.
+  destruct HF as (F1 & F2 & F3 & F4 & F5 & F6 & F7 & F8).
+  destruct (WFc_last_cases P Hwf) as [->|[(Q & c & -> & A & B & C)|(Q & c & d & -> & A & B & C)]].
+  - change (zlen (@nil cell) - 1) with (-1). cbn [app].
+    assert (E : nthz R (-1) = None) by (apply nthz_none; lia). rewrite E, E.
+    splits_; auto using SameModes_refl; unfold RowSt, SameFrame; splits_; auto.
+  - pose proof (zlen_nonneg Q) as HQ0.
+    assert (Ei : zlen (Q ++ [c]) - 1 = zlen Q) by (rewrite zlen_app, zlen_cons, zlen_nil; lia). rewrite Ei.
+    assert (En : nthz ((Q ++ [c]) ++ R) (zlen Q) = Some c).
+    { rewrite <- app_assoc. rewrite nthz_app_r by lia. replace (zlen Q - zlen Q) with 0 by lia. reflexivity. }
+    rewrite En. destruct (c_w c =? 0) eqn:E0; [lia|]. rewrite En.
+    assert (Ec : combine_at ((Q ++ [c]) ++ R) (zlen Q) cp = (Q ++ [add_comb c cp]) ++ R).
+    { unfold combine_at. rewrite En. rewrite <- !app_assoc. cbn [app].
+      rewrite takez_app_exact by reflexivity.
+      replace (Q ++ c :: R) with ((Q ++ [c]) ++ R) by (now rewrite <- app_assoc).
+      rewrite dropz_app_exact by (rewrite zlen_app, zlen_cons, zlen_nil; lia). reflexivity. }
+    rewrite Ec. rewrite combine_last_narrow by assumption.
+    set (newrow := (Q ++ [add_comb c cp]) ++ R).
+    destruct (zlen_combine_last (Q ++ [c]) cp Hwf) as [Hz Hw']. rewrite combine_last_narrow in Hz, Hw' by assumption.
+    splits_.
+    + unfold RowSt. cbn. splits_; auto.
+      * apply get_set_row_same. lia.
+      * rewrite Hz. exact Hlen.
+      * rewrite Hz. exact Hpos.
+    + unfold SameFrame. cbn. splits_; auto.
+      * rewrite zlen_set_row by lia. auto.
+      * intros y' Hne. rewrite get_set_row_other by lia. auto.
+    + unfold SameModes. cbn. auto.
+  - pose proof (zlen_nonneg Q) as HQ0.
+    assert (Ei : zlen (Q ++ [c; d]) - 1 = zlen Q + 1) by (rewrite zlen_app, !zlen_cons, zlen_nil; lia). rewrite Ei.
+    assert (En1 : nthz ((Q ++ [c; d]) ++ R) (zlen Q + 1) = Some d).
+    { rewrite <- app_assoc. rewrite nthz_app_r by lia. replace (zlen Q + 1 - zlen Q) with 1 by lia. reflexivity. }
+    assert (En : nthz ((Q ++ [c; d]) ++ R) (zlen Q) = Some c).
+    { rewrite <- app_assoc. rewrite nthz_app_r by lia. replace (zlen Q - zlen Q) with 0 by lia. reflexivity. }
+    rewrite En1. destruct (c_w d =? 0) eqn:E0; [|lia]. replace (zlen Q + 1 - 1) with (zlen Q) by lia. rewrite En.
+    assert (Ec : combine_at ((Q ++ [c; d]) ++ R) (zlen Q) cp = (Q ++ [add_comb c cp; d]) ++ R).
+    { unfold combine_at. rewrite En. rewrite <- !app_assoc. cbn [app].
+      rewrite takez_app_exact by reflexivity.
+      replace (Q ++ c :: d :: R) with ((Q ++ [c]) ++ d :: R) by (now rewrite <- app_assoc).
+      rewrite dropz_app_exact by (rewrite zlen_app, zlen_cons, zlen_nil; lia). reflexivity. }
+    rewrite Ec. rewrite combine_last_wide by assumption.
+    destruct (zlen_combine_last (Q ++ [c; d]) cp Hwf) as [Hz Hw']. rewrite combine_last_wide in Hz, Hw' by assumption.
+    splits_.
+    + unfold RowSt. cbn. splits_; auto.
+      * apply get_set_row_same. lia.
+      * rewrite Hz. exact Hlen.
+      * rewrite Hz. exact Hpos.
+    + unfold SameFrame. cbn. splits_; auto.
+      * rewrite zlen_set_row by lia. auto.
+      * intros y' Hne. rewrite get_set_row_other by lia. auto.
+    + unfold SameModes. cbn. auto.
 Qed.
